@@ -3,42 +3,61 @@ from propcfg.common import COMMON_ASSUME
 CFG = {
     "bin": "c11",
     "technique": "Lean 4 proof (frame and completeness of the recursive removal by induction over its depth budget, for every "
-                 "file-system state with symlinks and modes; composed through delete_layer and the three public requests) + "
-                 "differential correspondence on generated trees as root and as uid 65534",
+                 "file-system state with symlinks, hard links and modes; composed through delete_layer and the three public requests) + "
+                 "differential correspondence on generated trees (symlinks, hard links, modes) as root and as uid 65534",
     "level_text": "Theorems, for every file-system state (any depth, any modes, links to files/directories inside or outside, relative/"
-                  "absolute, dangling, cyclic, the layer path itself a link), every layer name, root and non-root, success or failure: "
+                  "absolute, dangling, cyclic, the layer path itself a link; hard links: names inside the layer sharing an inode with files "
+                  "outside it, with each other, outside names of files inside), every layer name, root and non-root, success or failure: "
                   "delete_layer and uncached_layer / cached_layer+DeleteLayer / handle_layer+Recreate leave every path outside "
-                  "<layers>/<name>, <name>.toml and the layer's SBOM files with exactly the node it had (kind, mode, content, link target); "
-                  "on success no own path remains / a fresh empty layer stands in its place. The model is remove_dir_recursively as "
+                  "<layers>/<name>, <name>.toml and the layer's SBOM files with exactly the node it had (kind, mode, content, link target; "
+                  "for a file with several names: inode, mode, content - the mode belongs to the inode in the model, chmod through one name "
+                  "shows under all, unlink takes one name away and nothing else: unlink_keeps_other_names); "
+                  "on success no own path remains / a fresh empty layer stands in its place. The frame theorems ask that <layers>/<name> "
+                  "itself is not a regular file with a second name (shared_top_counterexample: the code's chmod 0777 on the path it is given "
+                  "reaches the inode before read_dir fails). The model is remove_dir_recursively as "
                   "repaired for D4 (a path that is itself a symlink is unlinked, not descended into); d4_counterexample shows the "
                   "unrepaired recursion chmod-ing and emptying the link's target. The same executable Spec.Frame.judgeRequest judges "
                   "the before/after whole-root snapshots of the real code.",
     "level_note": "Partial for non-root: the theorems hold for both values of `root`, but the kernel's permission semantics are modelled "
                   "coarsely (owner bits; search on directories walked through, read to list, write+search on the parent to add/remove an "
                   "entry; the caller owns every node, so chmod is always allowed); ACLs, sticky bits, mount points, other owners are out. "
-                  "Hypotheses: the layers directory is a real directory; completeness needs the state to be a tree (snapshots are). "
+                  "Hypotheses: the layers directory is a real directory; the frame needs <layers>/<name> not to be a regular file that has a "
+                  "second name (LayerNotShared - such a file is outside the property's quantifier, layer trees; what the code does to it is "
+                  "proved and was reported); completeness needs the state to be a tree (snapshots are). "
                   "Trusted: Lean kernel; Spec/Frame.lean (my reading of C11: own paths, Frame, Gone, Recreated); harness and its snapshot. "
                   "Modelled not verified: std::fs / the kernel's path resolution (40 link expansions, nofollow on the last component for "
                   "lstat/unlink/rmdir/mkdir, d_type of read_dir entries), umask 022, the TOML text of the target layer's <name>.toml "
                   "(recorded as a token naming the decoded document). A <name>.toml that is itself a symlink is outside the model "
-                  "(fs::write through it is `unsupported`) and outside the property's quantifier (layer trees).",
+                  "(fs::write through it is `unsupported`) and outside the property's quantifier (layer trees). Hard links: an in-place "
+                  "fs::write through a name of a shared inode is `unsupported` in the model as well (the requests write <name>.toml only where "
+                  "no file stands); a <name>.toml that is a second name of an outside file is not generated (the token recording cannot "
+                  "show one content under two names) - the layer's SBOM file as such a name is. The link count of a regular file is compared "
+                  "between model and implementation (snapshot field n<count>) but is not part of the node the specification compares; all "
+                  "names of a generated inode lie inside the snapshot root, one file system (tmpfs/ext4, no cross-device names).",
     "shrink": [(3, ";")],
     "rule": "directed: every top-level shape (real directory, link to an outside directory rel/abs, to a read-only / non-searchable outside "
             "directory, to an outside file, to a sibling layer, dangling, self-loop, absent) x metadata-file state (typed, absent, empty, "
             "other metadata, not a document) and five hand-made contents (read-only nested, non-searchable nested, outside links, cycles + "
             "dangling, empty), for each of the 3 APIs as root and as uid 65534, the latter also with layers-directory modes 555/300/600/000/700; "
+            "directed hard links (first in the stream, 36 cases): for each API x user x file mode 444/400/000/644/755 a layer whose names share "
+            "inodes with a canary file (two inside names, one in a read-only directory), a file in a sibling layer, a root-level file, files in a "
+            "read-only and in a non-searchable canary directory, with each other (inside<->inside), and files of the layer that have a second "
+            "name in the canary tree / a sibling layer (outside->inside); plus the layer's SBOM file being a second name of a read-only outside file; "
             "sampled: up to 2 000 (quick, depth <=3) / 40 000 (thorough, depth <=5) trees in total: <=28 entries, directory modes "
             "755/700/500/300/000/555/777, file modes 644/600/444/000/755, 22 link-target kinds (outside dir/file rel+abs, through a "
             "non-searchable directory, sibling layer dir/file, own layer, ., .., sibling entry, dangling rel/abs, two-link cycles, "
-            "self-loops), 12% top-level links; 12 layer names incl. dotted and file-like ones (lyr.x, lyr.x.y, .hidden, `lyr.`, lyr.sbom, lyr.toml, "
+            "self-loops), 8% of the entries a hard link (existing outside file beside the layers directory / in a sibling layer / a read-only one, "
+            "a fresh outside file with a random mode, another file of the layer, an outside name for a new file of the layer), 12% top-level links; 12 layer names incl. dotted and file-like ones (lyr.x, lyr.x.y, .hidden, `lyr.`, lyr.sbom, lyr.toml, "
             "lyr.toml.toml, lyr.sbom.cdx, a.b), each also in a directed case per API and user; in every case a canary tree and the sibling "
             "layers a confusion of names could reach - <n>x, <n>.x, <n>.sbom, <n>.toml, <n>.sbom.cdx, <n> minus its last byte, every stem of "
             "<n> (a.b.c -> a.b, a) - each with its own directory, <s>.toml and all three <s>.sbom.<fmt>.json, plus an unrelated sibling; "
             "40% as uid 65534 (a quarter of those with a restricted layers directory). "
-            "non-trivial = the layer exists, its metadata file is a document, and it holds a symlink (or is one) or a directory whose owner "
-            "lacks r, w or x; distinct = distinct input line",
+            "non-trivial = the layer exists, its metadata file is a document, and it holds a symlink (or is one), a hard link (a name of an inode "
+            "with further names) or a directory whose owner lacks r, w or x; distinct = distinct input line",
     "trusted_base": ["Spec/Frame.lean is my reading of C11 (own paths of a layer, Frame, Gone, Recreated)",
-                     "the harness snapshot (symlink_metadata walk as root: kind, mode & 07777, content, link target with the temp root stripped)"],
+                     "the harness snapshot (symlink_metadata walk as root: kind, mode & 07777, content, link target with the temp root stripped, "
+                     "st_nlink of a regular file when it is not 1); hard links are made with link(2) by the root parent after their target",
+                     "Model/RmTree.lean's reading of hard links: Node.hard ino mode content under every name, chmod acts on the inode, unlink on the name"],
     "assumptions": COMMON_ASSUME + ["every node is owned by the caller; no ACLs, sticky bits, mount points, concurrent writers",
                                     "the layers directory is a real directory (not a symlink); <name>.toml is not a symlink"],
 }
